@@ -54,8 +54,8 @@ TRUSTED = ["lean/BacVerif/Model/Bip.lean is a hand transcription of BIPSimple/BI
 ASSUMPTIONS = ["sub-second alignment: ageing ticks sit on integer seconds of the virtual clock (+- float ulp); "
                "events are placed >= 1 ms away from them; the integer-tick theorems are checked, not proved, "
                "against the float scheduler",
-               "foreign devices are not on the subnet of their own BBMD (they would hear the local re-broadcast "
-               "and the FDT copy: 2 deliveries — excluded by hypothesis, recorded in notes/C13.md)",
+               "exactly-once needs NoEcho (no foreign device on a subnet its own BBMD broadcasts into); where it fails the "
+               "theorem bbmd_multiplicity predicts the extra copies and the prediction is compared with the real deliveries",
                "one BBMD per subnet, one IPRouter joining all subnets, all nodes on UDP port 47808"]
 
 START = 1000000.0
